@@ -645,11 +645,11 @@ def check(ctx):
     ctx.rule("R13.10", "from_tk.make_units_adjacent: effect of a step on wire positions (first qubit at offset, second right after it)")
     ctx.rule("R13.11", "tk.Circuit.rename_units re-keys the post-selection simultaneously")
     ctx.rule("R13.8", "the classical post-processing has one output per open bit wire after every handler")
-    check_conventions(ctx)
-    check_arity(ctx)
-    check_flag(ctx)
-    check_batches(ctx)
-    check_dispatch(ctx)
+    ctx.attempt(check_conventions, ctx)
+    ctx.attempt(check_arity, ctx)
+    ctx.attempt(check_flag, ctx)
+    ctx.attempt(check_batches, ctx)
+    ctx.attempt(check_dispatch, ctx)
     from . import c13b
     c13b.check(ctx)
     ctx.rule("R13.12", "the offsets into the registers are counted with Ty.count (decided with C12 R12.6)")
